@@ -52,6 +52,8 @@ def value(src, p):
     vt = src.get("vtype", "int")
     if vt == "float":
         return n / 8.0
+    if vt == "hugepow":                # computed FROM the coordinates with Python's unbounded integers (beyond 64 bits): a generator
+        return 3 ** (41 + p[0] + p[1] + p[2]) + (1 << (62 + p[0]))      # handed numpy integers instead of ints would overflow
     if vt == "bigint":                 # odd integers beyond 2**53: not representable as floats
         return 2 ** 53 + 1 + 2 * abs(n)
     if vt == "bigfloat":               # the floats those integers round to: equal to them AS FLOATS, different values
@@ -152,6 +154,8 @@ def run_case(case):
                 continue
             src = op["src"]
             kind = src["kind"]
+            if src.get("vtype") == "hugepow" and kind not in ("const", "callable", "list"):
+                src = dict(src, vtype="bigint")
             if kind == "lookup" and src.get("vtype") in ("tuple", "list2", "dict", "mixed", "nonebool"):
                 src = dict(src, numpy=False)        # composite table entries: a nested-list table (an array would grow a dimension)
             elif src.get("vtype") in ("tuple", "list2", "cells", "mixed", "dict", "set", "bytes", "nonebool") and kind not in ("const", "callable", "list"):
@@ -311,7 +315,7 @@ def strategy(tier):
     src = st.fixed_dictionaries({
         "kind": st.sampled_from(["callable", "callable", "list", "array", "const", "lookup", "lookup"]),
         "mult": st.sampled_from([1, 1, 3, -2, 7]), "off": st.integers(-50, 50),
-        "vtype": st.sampled_from(["int", "int", "float", "str", "tuple", "list2", "cells", "mixed", "dict", "set", "bytes", "nonebool", "bigint", "bigfloat"]),
+        "vtype": st.sampled_from(["int", "int", "float", "str", "tuple", "list2", "cells", "mixed", "dict", "set", "bytes", "nonebool", "bigint", "bigfloat", "hugepow"]),
         "lowdim": st.booleans(), "numpy": st.booleans(), "derive": st.sampled_from([False, False, True]), "functor": st.sampled_from(["function", "function", "object", "const_sub", "lookup_sub"]),
         "other": st.integers(0, 3), "drop_at": st.sampled_from([None, None, None, None, 0, 1, 2, 5, -1])})
     name = st.integers(0, 3)
